@@ -13,6 +13,7 @@ from ..roles import RoleLost
 from ..flow import Flow, fmt_source, BUILDERS_NOARG, BUILDERS_VALUE
 from .. import pat, cfg
 from . import common
+from .. import idroles
 from .c06 import find_sector, find_scan
 
 PID = "C14"
@@ -422,7 +423,7 @@ def rule_ef(ctx, R, sector, gauss_site, scan_site):
             if blk["term"]["k"] != "switch":
                 continue
             c = v.classify_bool(blk["term"]["discr"])
-            if c and c[0] == "call" and c[1].get("callee", {}).get("name") == "is_empty":
+            if c and c[0] == "call" and idroles.is_role(ctx, c[1], "is_empty"):
                 gr = v.root(c[1]["args"][0])
                 te, fe = bool_edges(sector, sb)
                 empties.append((sb, fe, gr))
@@ -444,7 +445,7 @@ def rule_ef(ctx, R, sector, gauss_site, scan_site):
             acd = cfg.transitive_control_deps(sector, acyclic=True)
             for (sb, tgt) in acd[xbi]:
                 c = v.classify_bool(sector.blocks[sb]["term"]["discr"])
-                if c and c[0] == "call" and c[1].get("callee", {}).get("name") == "has_one_edge":
+                if c and c[0] == "call" and idroles.is_role(ctx, c[1], "has_one_edge"):
                     te_, fe_ = bool_edges(sector, sb)
                     if tgt == fe_:
                         guard = True
